@@ -8,6 +8,8 @@ the only gate when the draw protocol is not recognised."""
 
 import copy
 
+import math
+
 import numpy as np
 
 from copsim import refs, zoo
@@ -195,6 +197,19 @@ def _check_call(ctx, run, model, fam, n, subject, may_refuse=False):
                     clause='raised', exc=outcome_class(out), **cond)
         return 'raised'
     S = out[1]
+    # (c0) the sample follows C_theta (refined below, row by row); the Kendall tau of C_theta is
+    # a closed-form function of theta, so "the sample's rank correlation equals the model's
+    # tau" has a deterministic half: tau(theta) == model.tau (solver accuracy 6e-5 for Frank)
+    try:
+        tau_theta = float(refs.tau_of_theta(fam, theta))
+    except Exception:
+        tau_theta = None
+    if tau_theta is not None and math.isfinite(tau_theta) and abs(tau) <= 0.8:
+        ctx.stats['tau_theta_coherence_checks'] += 1
+        if abs(tau_theta - tau) > 1e-3:
+            ctx.violate('c_model_tau_is_kendall_tau_of_model_theta', subject,
+                        'the model says tau = %.6f, the copula it samples from (theta = %.6f) '
+                        'has Kendall tau %.6f' % (tau, theta, tau_theta), **cond)
     # (a) shape / range
     if not isinstance(S, np.ndarray) or S.shape != (n, 2):
         ctx.violate('a_returns_n_by_2_array', subject,
